@@ -312,6 +312,43 @@ class Facts:
         return self.kind_of(t) if t is not None else "unknown"
 
 
+def strip_unknown_properties(facts: Facts, cls: str, doc: Any) -> Any:
+    """
+    Copy of ``doc`` without the object members that are no JSON property of the class
+    declared at their place (``modelType`` is kept).
+
+    The generated TypeScript de-serialiser ignores such members on purpose (NOTE in the
+    emitted ``*FromJsonableWithoutDispatch``: "we ignore properties which we do not know
+    how to de-serialize"), so its verdict is compared with the Python verdict on the
+    stripped document.
+    """
+    pm = facts.pm
+
+    def visit(value: Any, t: Optional[pyexec.TypeRef]) -> Any:
+        if t is None:
+            return value
+        core = t.inner if t.kind == "optional" else t
+        if core.kind == "list":
+            if isinstance(value, list):
+                return [visit(v, core.inner) for v in value]
+            return value
+        if core.kind != "atomic" or not pm.is_class(core.name) or not isinstance(value, dict):
+            return value
+        target = core.name
+        if isinstance(value.get("modelType"), str):
+            target = facts.class_by_model_type(value["modelType"]) or target
+        known = {facts.json_prop(prop.name): prop.type for _, prop in pm.all_props(target)}
+        result = {}
+        for key, sub in value.items():
+            if key == "modelType":
+                result[key] = sub
+            elif key in known:
+                result[key] = visit(sub, known[key])
+        return result
+
+    return visit(doc, pyexec.TypeRef("atomic", cls))
+
+
 B64_STRICT = re.compile(r"^(?:[A-Za-z0-9+/]{4})*(?:[A-Za-z0-9+/]{2}==|[A-Za-z0-9+/]{3}=)?$")
 
 
@@ -342,6 +379,8 @@ def locate_difference(orig: Any, mut: Any, path: Tuple = ()) -> Optional[Tuple[T
     if type(orig) is not type(mut):
         return path, "value"
     if isinstance(orig, dict):
+        if any(k not in mut for k in orig) and any(k not in orig for k in mut):
+            return path, "value"  # keys removed and added: the object was replaced
         for key in orig:
             if key not in mut:
                 return path + (key,), "missing"
@@ -488,6 +527,8 @@ class LegResult:
         self.seconds: Dict[str, float] = {}
         self.sanitizer_reports = 0
         self.sanitizer_text = ""
+        self.partial_build_failure = ""
+        self.excluded_units: List[str] = []
         self.by_case: Dict[int, Dict[str, Any]] = {}
 
     def index(self) -> None:
@@ -567,7 +608,12 @@ def java_string(text: str) -> str:
     return '"' + text + '"'
 
 
-def java_driver_source(facts: Facts, gen: Generated, package: str) -> str:
+JAVA_OPTIONAL_UNITS = {"Xmlization.java", "Constants.java"}
+
+
+def java_driver_source(
+    facts: Facts, gen: Generated, package: str, with_constants: bool = True
+) -> str:
     names = Names("java")
     jsonization = (
         gen.root / "src/main/java" / package.replace(".", "/") / "jsonization/Jsonization.java"
@@ -577,9 +623,10 @@ def java_driver_source(facts: Facts, gen: Generated, package: str) -> str:
         f"import {package}.verification.Verification;",
         f"import {package}.reporting.Reporting;",
         f"import {package}.stringification.Stringification;",
-        f"import {package}.constants.Constants;",
         f"import {package}.types.model.IClass;",
     ]
+    if with_constants:
+        imports.append(f"import {package}.constants.Constants;")
     if facts.enums:
         imports.append(f"import {package}.types.enums.*;")
     dispatch = []
@@ -617,7 +664,9 @@ def java_driver_source(facts: Facts, gen: Generated, package: str) -> str:
                 f"      }}"
             )
         tables.append("    }")
-    for name, kind, elem in facts.constants:
+    if not with_constants:
+        tables.append('    constants.put("__unavailable__", true);')
+    for name, kind, elem in facts.constants if with_constants else []:
         field = names.call("property_name", name)
         tables.append(f"    {{\n      ObjectNode c = constants.putObject({java_string(name)});")
         if kind == "set_enum":
@@ -660,23 +709,60 @@ def run_java(
     (root / "sources.txt").write_text("\n".join(sources), encoding="utf-8")
     cp = ":".join(tools.jars)
     assert tools.javac is not None and tools.java is not None
-    proc = run_group(
-        [tools.javac, "-encoding", "UTF-8", "-proc:none", "-nowarn", "-cp", cp,
-         "-d", str(classes), "@sources.txt"],
-        root, timeout,
-    )
-    res.seconds["javac"] = proc.seconds
-    if proc.rc is None:
-        res.status, res.detail = "timeout", "javac"
+    javac = [tools.javac, "-encoding", "UTF-8", "-proc:none", "-nowarn", "-Xmaxerrs", "400",
+             "-cp", cp, "-d", str(classes), "@sources.txt"]
+    t0 = time.time()
+    deadline = t0 + timeout
+    failures: List[str] = []
+    with_constants = True
+    for attempt in range(3):
+        proc = run_group(javac, root, max(deadline - time.time(), 5.0))
+        if proc.rc is None:
+            res.seconds["javac"] = time.time() - t0
+            res.status, res.detail = "timeout", "javac"
+            return res
+        if proc.rc == 0:
+            break
+        output = proc.err + proc.out
+        failures.append(output[-6000:])
+        # Work-arounds so that the JSON leg can go on *after* the diagnostics have been
+        # recorded as a build failure (they are reported by the check either way):
+        #  * a model without enumerations: the emitted sources import the package
+        #    ``<package>.types.enums`` which does not exist -> add an empty package;
+        #  * units the JSON leg does not need (XML, the constant tables) are left out.
+        enums_dir = src / package.replace(".", "/") / "types" / "enums"
+        broken = set(re.findall(r"([A-Za-z_0-9]+\.java):[0-9]+: error", output))
+        if f"package {package}.types.enums does not exist" in output and not enums_dir.exists():
+            enums_dir.mkdir(parents=True)
+            (enums_dir / "package-info.java").write_text(
+                f"package {package}.types.enums;\n", encoding="utf-8"
+            )
+            sources.append(str(enums_dir / "package-info.java"))
+            res.excluded_units.append("+types/enums/package-info.java")
+        elif broken and broken <= JAVA_OPTIONAL_UNITS:
+            res.excluded_units.extend(sorted(broken))
+            sources = [p for p in sources if os.path.basename(p) not in broken]
+            with_constants = with_constants and "Constants.java" not in broken
+            (src / "Driver.java").write_text(
+                java_driver_source(facts, gen, package, with_constants=with_constants),
+                encoding="utf-8",
+            )
+        else:
+            res.seconds["javac"] = time.time() - t0
+            res.status, res.detail = "build-failed", "\n".join(failures)[-8000:]
+            return res
+        (root / "sources.txt").write_text("\n".join(sources), encoding="utf-8")
+    else:
+        res.seconds["javac"] = time.time() - t0
+        res.status, res.detail = "build-failed", "\n".join(failures)[-8000:]
         return res
-    if proc.rc != 0:
-        res.status, res.detail = "build-failed", (proc.err + proc.out)[-6000:]
-        return res
+    res.seconds["javac"] = time.time() - t0
+    res.partial_build_failure = "\n".join(failures)[-8000:]
     spec = {"cases": [{"i": c["i"], "cls": c["cls"], "doc": c["doc"]} for c in cases]}
     (root / "spec.json").write_text(json.dumps(spec, ensure_ascii=True), encoding="utf-8")
     proc = run_group(
         [tools.java, "-Xss64m", "-cp", f"{classes}:{cp}", "Driver", "spec.json", "out.jsonl"],
-        root, max(timeout - proc.seconds, 30.0),
+        root, max(deadline - time.time(), 30.0),
     )
     res.seconds["run"] = proc.seconds
     if proc.rc is None:
